@@ -1206,7 +1206,14 @@ class TenSym(PySym):
                     return sub.run_fn(cm[m], **given_)
                 f = getattr(recv, "_ctor", None) if m == "__class__" else getattr(recv, m, None)
                 if callable(f):
-                    return f(*[self.pyval(self.ex(a)) for a in n.args], **{k.arg: self.pyval(self.ex(k.value)) for k in n.keywords if k.arg})
+                    kw_ = {k.arg: self.pyval(self.ex(k.value)) for k in n.keywords if k.arg}
+                    for k in n.keywords:
+                        if k.arg is None:       # **options
+                            d_ = self.ex(k.value)
+                            if not isinstance(d_, dict):
+                                raise Unsupported("** of something that is not a dict")
+                            kw_.update({self.pyval(k2_): self.pyval(v2_) for k2_, v2_ in d_.items()})
+                    return f(*[self.pyval(self.ex(a)) for a in n.args], **kw_)
                 raise Unsupported("method %s of a model object" % m)
             if isinstance(recv, list) and m in ("append", "extend"):
                 v = self.ex(n.args[0])
